@@ -1,84 +1,781 @@
+// Driver c09: indeterminate storage outcomes. Runs the real backend (sequencer, retry loop, compaction cap,
+// client write paths) over a fault-injecting engine wrapper on scripted and random write histories with
+// unknown-outcome faults placed on client commits and on repair commits (both variants: applied / not applied),
+// and writes every script together with the implementation's observation as a Coq case
+// (checked against Model/RetrySys.v + Model/C09Cases.v and judged by c09_oracle).
+//
+// Cases run in child processes (a Backend's goroutines can never be stopped), a few at a time.
 package main
 
 import (
+	"bufio"
+	"context"
 	"encoding/json"
+	"errors"
+	"flag"
 	"fmt"
 	"os"
+	"os/exec"
+	"path/filepath"
+	"sort"
+	"sync"
 	"time"
 
+	tikverr "github.com/tikv/client-go/v2/error"
+
 	"github.com/kubewharf/kubebrain/pkg/backend"
+	"github.com/kubewharf/kubebrain/pkg/storage"
 
 	"kbverif/lib"
 )
 
-func u(k int, v string, rev uint64, envs ...Env) Step {
+// ---------- case plans ----------
+
+type Plan struct {
+	ID     int
+	Kind   string
+	Engine string
+	Script []Step // fixed script (corpus); nil = generated
+	Seed   uint64
+}
+
+func envOK() Env         { return Env{Kind: "ok"} }
+func unk(applied bool) Env { return Env{Kind: "unk", Applied: applied} }
+
+func cr(k int, v string, envs ...Env) Step { return Step{Kind: "create", Key: k, Val: []byte(v), Envs: envs} }
+func up(k int, v string, rev uint64, envs ...Env) Step {
 	return Step{Kind: "update", Key: k, Val: []byte(v), Rev: rev, Envs: envs}
+}
+func del(k int, rev uint64, envs ...Env) Step { return Step{Kind: "delete", Key: k, Rev: rev, Envs: envs} }
+func st(kind string) Step                       { return Step{Kind: kind} }
+func retry(envs ...Env) Step                    { return Step{Kind: "retry", Envs: envs} }
+func compact(rev uint64) Step                   { return Step{Kind: "compact", Rev: rev} }
+
+var drain = []Step{st("tick"), retry(), retry(), st("tick"), retry(), retry(), st("list")}
+
+func seq(parts ...[]Step) []Step {
+	var out []Step
+	for _, p := range parts {
+		out = append(out, p...)
+	}
+	return out
+}
+
+// corpus: fixed regression cases, run first on every run. Revisions: the backend starts at 10.
+func corpus() []Plan {
+	c := []Plan{
+		{Kind: "corpus/F1-update-landed-repair-unknown-not-applied", Script: seq([]Step{cr(0, "v1"), st("list"), up(0, "v2", 11, unk(true)), st("tick"), retry(unk(false))}, drain)},
+		{Kind: "corpus/F1-update-landed-repair-definite-error", Script: seq([]Step{cr(0, "v1"), st("list"), up(0, "v2", 11, unk(true)), st("tick"), retry(Env{Kind: "err"})}, drain)},
+		{Kind: "corpus/F1-delete-landed-repair-unknown-not-applied", Script: seq([]Step{cr(0, "v1"), st("list"), del(0, 0, unk(true)), st("tick"), retry(unk(false))}, drain)},
+		{Kind: "corpus/F2-empty-value-landed", Script: seq([]Step{cr(0, "v1"), st("list"), up(0, "", 11, unk(true))}, drain)},
+		{Kind: "corpus/update-landed-repaired", Script: seq([]Step{cr(0, "v1"), st("list"), up(0, "v2", 11, unk(true)), compact(0), st("list")}, drain)},
+		{Kind: "corpus/update-not-landed-dropped", Script: seq([]Step{cr(0, "v1"), st("list"), up(0, "v2", 11, unk(false)), compact(0), st("list")}, drain)},
+		{Kind: "corpus/create-landed-repaired", Script: seq([]Step{st("list"), cr(1, "w1", unk(true)), st("list")}, drain)},
+		{Kind: "corpus/create-not-landed", Script: seq([]Step{st("list"), cr(1, "w1", unk(false)), cr(1, "w2"), st("list")}, drain)},
+		{Kind: "corpus/delete-landed-repaired", Script: seq([]Step{cr(0, "v1"), st("list"), del(0, 11, unk(true)), st("list")}, drain)},
+		{Kind: "corpus/delete-not-landed", Script: seq([]Step{cr(0, "v1"), st("list"), del(0, 0, unk(false)), st("list")}, drain)},
+		{Kind: "corpus/landed-then-overwritten-before-retry", Script: seq([]Step{cr(0, "v1"), st("list"), up(0, "v2", 11, unk(true)), st("list"), up(0, "v3", 12), st("list")}, drain)},
+		{Kind: "corpus/landed-delete-then-recreate", Script: seq([]Step{cr(0, "v1"), st("list"), del(0, 0, unk(true)), st("list"), cr(0, "v3"), st("list")}, drain)},
+		{Kind: "corpus/landed-then-deleted-before-retry", Script: seq([]Step{cr(0, "v1"), st("list"), up(0, "v2", 11, unk(true)), del(0, 0), st("list")}, drain)},
+		{Kind: "corpus/create-fallback-tombstone-unknown", Script: seq([]Step{cr(0, "v1"), del(0, 0), st("list"), cr(0, "v2", envOK(), unk(true)), st("list")}, drain)},
+		{Kind: "corpus/create-fallback-tombstone-unknown-not-applied", Script: seq([]Step{cr(0, "v1"), del(0, 0), st("list"), cr(0, "v2", envOK(), unk(false)), st("list")}, drain)},
+		{Kind: "corpus/create-fallback-get-recreate-unknown", Script: seq([]Step{st("list"), cr(2, "x1", Env{Kind: "abort"}, unk(true)), st("list")}, drain)},
+		{Kind: "corpus/create-fallback-get-existing", Script: seq([]Step{cr(2, "x0"), cr(2, "x1", Env{Kind: "abort"}), st("list")}, drain)},
+		{Kind: "corpus/update-as-create-unknown", Script: seq([]Step{st("list"), up(3, "y1", 0, unk(true)), st("list")}, drain)},
+		{Kind: "corpus/repair-unknown-applied-then-repaired", Script: seq([]Step{cr(0, "v1"), st("list"), up(0, "v2", 11, unk(true)), st("tick"), retry(unk(true)), st("list")}, drain)},
+		{Kind: "corpus/two-outstanding-same-key", Script: seq([]Step{cr(0, "v1"), st("list"), up(0, "v2", 11, unk(true)), up(0, "v3", 12, unk(true)), up(0, "v4", 12, unk(false)), st("list")}, drain)},
+		{Kind: "corpus/two-outstanding-second-not-landed", Script: seq([]Step{cr(0, "v1"), st("list"), up(0, "v2", 11, unk(true)), up(0, "v3", 12, unk(false)), cr(1, "w"), st("list")}, drain)},
+		{Kind: "corpus/hold-window-compact", Script: seq([]Step{cr(0, "v1"), {Kind: "update", Key: 0, Val: []byte("v2"), Rev: 11, Envs: []Env{unk(true)}, Hold: true},
+			compact(0), cr(1, "w"), compact(0), st("list"), st("release"), compact(0), compact(12), compact(11), st("list")}, drain)},
+		{Kind: "corpus/repair-races-client-update", Script: seq([]Step{cr(0, "v1"), up(0, "v2", 11, unk(true)), st("list"), st("tick"), st("rget"), up(0, "v3", 12), st("rfinish"), st("list")}, drain)},
+		{Kind: "corpus/repair-races-client-delete", Script: seq([]Step{cr(0, "v1"), del(0, 0, unk(true)), st("list"), st("tick"), st("rget"), cr(0, "v3"), compact(0), {Kind: "rfinish", Envs: []Env{unk(true)}}, st("list")}, drain)},
+		{Kind: "corpus/getter-fails-node-stays", Script: seq([]Step{cr(0, "v1"), up(0, "v2", 11, unk(true)), st("list"), st("tick"), {Kind: "retry", GetErr: true}, retry(), st("list")}, drain)},
+		{Kind: "corpus/young-node-not-retried", Script: seq([]Step{cr(0, "v1"), up(0, "v2", 11, unk(true)), retry(), retry(), st("list")}, drain)},
+		{Kind: "corpus/compact-requests", Script: seq([]Step{cr(0, "v1"), up(0, "v2", 11), up(0, "v3", 12, unk(true)), compact(1 << 40), compact(11), compact(12), compact(13), st("list")}, drain)},
+		{Kind: "corpus/fixed-83355f7-update-future-revision", Script: seq([]Step{cr(0, "v1"), up(0, "v2", 1<<40), del(0, 1<<40), cr(1, "w", unk(true)), st("list")}, drain)},
+		{Kind: "corpus/delete-missing-and-stale", Script: seq([]Step{del(0, 0), cr(0, "v1"), del(0, 5), del(0, 0, unk(true)), del(0, 0), st("list")}, drain)},
+		{Kind: "corpus/outside-origin-is-compare-failure", Script: seq([]Step{cr(0, "v1"), st("list"), up(0, "v2", 11, Env{Kind: "unk", Applied: true, OCas: true})}, drain)},
+		{Kind: "corpus/definite-errors", Script: seq([]Step{cr(0, "v1", Env{Kind: "err"}), cr(0, "v2"), up(0, "v3", 12, Env{Kind: "err"}), del(0, 0, Env{Kind: "abort"}), {Kind: "delete", Key: 0, GetErr: true}, st("list")}, drain)},
+	}
+	for i := range c {
+		c[i].Engine = lib.EngMem
+	}
+	return c
+}
+
+// ---------- random cases (generated while running: expected revisions follow the implementation's answers) ----------
+
+type gen struct {
+	rnd     *lib.Rand
+	r       *Runner
+	lastRev [nKeys]uint64 // latest revision the generator believes the key has (0 = none)
+	valSeq  int
+	allowF1 bool
+	allowF2 bool
+	faults  int
+	parked  bool
+	held    bool
+	queue   int
+}
+
+func (g *gen) val() []byte {
+	g.valSeq++
+	if g.allowF2 && g.rnd.Chance(1, 4) {
+		return []byte{}
+	}
+	return []byte(fmt.Sprintf("v%d", g.valSeq))
+}
+
+func (g *gen) faultEnv() Env {
+	switch g.rnd.Intn(20) {
+	case 0, 1:
+		return Env{Kind: "err"}
+	case 2, 3:
+		return Env{Kind: "abort"}
+	default:
+		return unk(g.rnd.Chance(11, 20))
+	}
+}
+
+func (g *gen) key() int {
+	if g.rnd.Chance(1, 12) {
+		return 3
+	}
+	return g.rnd.Intn(3)
+}
+
+func (g *gen) expected(k int) uint64 {
+	cur := g.lastRev[k]
+	switch g.rnd.Intn(10) {
+	case 0:
+		return 0
+	case 1:
+		if cur > 1 {
+			return cur - 1
+		}
+		return cur
+	case 2:
+		return uint64(initRev + 1 + g.rnd.Intn(8))
+	default:
+		return cur
+	}
+}
+
+func (g *gen) write(faultP, faultQ int) Step {
+	k := g.key()
+	var s Step
+	switch g.rnd.Intn(10) {
+	case 0, 1, 2:
+		s = Step{Kind: "create", Key: k, Val: g.val()}
+	case 3, 4, 5, 6:
+		s = Step{Kind: "update", Key: k, Val: g.val(), Rev: g.expected(k)}
+	default:
+		rev := uint64(0)
+		if g.rnd.Chance(2, 5) {
+			rev = g.expected(k)
+		}
+		s = Step{Kind: "delete", Key: k, Rev: rev}
+	}
+	if g.rnd.Chance(faultP, faultQ) {
+		g.faults++
+		e := g.faultEnv()
+		if s.Kind != "delete" && g.rnd.Chance(1, 4) {
+			// fault on the second commit of a create (fallback paths)
+			first := envOK()
+			if g.rnd.Chance(1, 3) {
+				first = Env{Kind: "abort"}
+			}
+			s.Envs = []Env{first, e}
+		} else {
+			s.Envs = []Env{e}
+		}
+		if !g.parked && !g.held && e.Kind == "unk" && g.rnd.Chance(1, 6) {
+			s.Hold = true
+		}
+	} else if g.rnd.Chance(1, 40) {
+		s.GetErr = true
+	}
+	return s
+}
+
+func (g *gen) retryEnv(draining int) []Env {
+	if draining >= 2 {
+		return nil
+	}
+	switch g.rnd.Intn(20) {
+	case 0, 1, 2:
+		return []Env{unk(true)}
+	case 3:
+		if g.allowF1 {
+			return []Env{unk(false)}
+		}
+	case 4:
+		if g.allowF1 {
+			return []Env{{Kind: "err"}}
+		}
+	}
+	return nil
+}
+
+// learn updates the generator's belief about the keys from what the implementation answered.
+func (g *gen) learn(s Step, o Obs) {
+	switch s.Kind {
+	case "create", "update":
+		if o.Class == "ok" {
+			g.lastRev[s.Key] = o.HeaderRev
+		} else if o.Class == "cond" && o.Kv != nil {
+			g.lastRev[s.Key] = o.Kv.Rev
+		} else if o.Class == "uncertain" && len(s.Envs) > 0 && s.Envs[len(s.Envs)-1].Applied && g.rnd.Bool() {
+			g.lastRev[s.Key] = o.Alloc // a client could have read the landed write
+		}
+	case "delete":
+		if o.Class == "ok" {
+			g.lastRev[s.Key] = 0
+		} else if o.Class == "cond" && o.Kv != nil {
+			g.lastRev[s.Key] = o.Kv.Rev
+		}
+	case "list":
+		for i := range g.lastRev {
+			g.lastRev[i] = 0
+		}
+		for _, kv := range o.List {
+			if kv.Key < nKeys {
+				g.lastRev[kv.Key] = kv.Rev
+			}
+		}
+	}
+	g.queue = o.Queue
+	switch o.Retry {
+	case "parked":
+		g.parked = true
+	case "success", "failed_put", "unknown_put", "unnecessary", "failed_get":
+		g.parked = false
+	}
+	if s.Kind == "release" {
+		g.held = false
+	}
+	if s.Hold && o.Class == "uncertain" {
+		g.held = true
+	}
+}
+
+// generate runs one random case on runner r, producing the script as it goes.
+func generate(rnd *lib.Rand, r *Runner) ([]Step, Result) {
+	g := &gen{rnd: rnd, r: r, allowF1: rnd.Chance(1, 8), allowF2: rnd.Chance(1, 14)}
+	t0 := time.Now()
+	res := Result{}
+	var script []Step
+	segStart := time.Now()
+	do := func(s Step) Obs {
+		o := r.Exec(s)
+		script = append(script, s)
+		res.Obs = append(res.Obs, o)
+		g.learn(s, o)
+		if s.Kind == "tick" {
+			segStart = time.Now()
+		} else if time.Since(segStart) > segmentLimitMs*time.Millisecond {
+			res.Tainted = true
+		}
+		return o
+	}
+	nWrites := 3 + rnd.Intn(7)
+	do(st("list"))
+	for w := 0; w < nWrites && r.failure == ""; w++ {
+		// at least one fault per case: the first writes establish keys, then faults are dense
+		fp, fq := 2, 5
+		if w == 0 {
+			fp, fq = 1, 6
+		}
+		if w == nWrites-1 && g.faults == 0 {
+			fp, fq = 1, 1
+		}
+		do(g.write(fp, fq))
+		// interleave
+		for n := rnd.Intn(3); n > 0 && r.failure == ""; n-- {
+			switch rnd.Intn(12) {
+			case 0, 1:
+				do(st("list"))
+			case 2, 3:
+				do(compact([]uint64{0, 0, initRev + uint64(rnd.Intn(12)), 1 << 33}[rnd.Intn(4)]))
+			case 4, 5:
+				do(st("tick"))
+			case 6, 7, 8:
+				if g.parked {
+					do(Step{Kind: "rfinish", Envs: g.retryEnv(0)})
+				} else if !g.held && g.queue > 0 && rnd.Chance(1, 3) {
+					do(st("rget"))
+				} else {
+					s := retry(g.retryEnv(0)...)
+					if rnd.Chance(1, 15) {
+						s.GetErr = true
+					}
+					do(s)
+				}
+			case 9:
+				if g.held {
+					do(st("release"))
+				}
+			}
+		}
+	}
+	// drain
+	if g.held && r.failure == "" {
+		if rnd.Bool() {
+			do(compact(0))
+		}
+		do(st("release"))
+	}
+	if g.parked && r.failure == "" {
+		do(Step{Kind: "rfinish", Envs: g.retryEnv(0)})
+	}
+	for round := 0; round < 8 && r.failure == ""; round++ {
+		if g.queue == 0 {
+			break
+		}
+		if rnd.Chance(1, 4) {
+			do(compact(0))
+		}
+		do(st("tick"))
+		for n := g.queue + 1; n > 0 && r.failure == ""; n-- {
+			do(retry(g.retryEnv(round)...))
+		}
+	}
+	if r.failure == "" {
+		do(retry())
+		do(st("list"))
+	}
+	res.Failure = r.failure
+	res.Events = r.Finish()
+	res.WallMs = time.Since(t0).Milliseconds()
+	return script, res
+}
+
+// ---------- Coq rendering ----------
+
+func coqEnv(e Env) string {
+	switch e.Kind {
+	case "err":
+		return "EnvError"
+	case "abort":
+		return "EnvAbort"
+	case "unk":
+		return lib.App("EnvUnknown", lib.Bool(e.Applied), lib.Bool(e.OCas))
+	}
+	return "EnvOk"
+}
+
+func firstEnv(envs []Env) string {
+	if len(envs) > 0 {
+		return coqEnv(envs[0])
+	}
+	return "EnvOk"
+}
+
+func coqStep(s Step) string {
+	envs := make([]string, len(s.Envs))
+	for i, e := range s.Envs {
+		envs[i] = coqEnv(e)
+	}
+	switch s.Kind {
+	case "create":
+		return lib.App("DWrite", lib.App("OCreate", lib.N(uint64(s.Key)), lib.Bytes(s.Val)), lib.List(envs), lib.Bool(s.GetErr), lib.Bool(s.Hold))
+	case "update":
+		return lib.App("DWrite", lib.App("OUpdate", lib.N(uint64(s.Key)), lib.Bytes(s.Val), lib.N(s.Rev)), lib.List(envs), lib.Bool(s.GetErr), lib.Bool(s.Hold))
+	case "delete":
+		return lib.App("DWrite", lib.App("ODelete", lib.N(uint64(s.Key)), lib.N(s.Rev)), lib.List(envs), lib.Bool(s.GetErr), lib.Bool(s.Hold))
+	case "tick":
+		return lib.App("DTick", lib.N(tickMs))
+	case "retry":
+		return lib.App("DRetry", firstEnv(s.Envs), lib.Bool(s.GetErr))
+	case "rget":
+		return lib.App("DRetryGet", lib.Bool(s.GetErr))
+	case "rfinish":
+		return lib.App("DRetryFinish", firstEnv(s.Envs))
+	case "compact":
+		return lib.App("DCompact", lib.N(s.Rev))
+	case "list":
+		return "DList"
+	case "release":
+		return "DRelease"
+	}
+	return "DList"
+}
+
+func coqKvo(kv *KVObs) string {
+	if kv == nil {
+		return lib.None()
+	}
+	return lib.Some(lib.Pair(lib.Bytes(kv.Val), lib.N(kv.Rev)))
+}
+
+var retryStates = map[string]string{"idle": "RSIdle", "failed_get": "RSFailedGet", "unnecessary": "RSUnnecessary",
+	"success": "RSSuccess", "failed_put": "RSFailedPut", "unknown_put": "RSUnknownPut", "parked": "RSParked"}
+
+func coqObs(s Step, o Obs) string {
+	d := "ONone"
+	switch s.Kind {
+	case "create", "update", "delete":
+		var r string
+		switch o.Class {
+		case "ok":
+			r = lib.App("ROk", lib.N(o.HeaderRev), coqKvo(o.Kv))
+		case "cond":
+			r = lib.App("RCond", lib.N(o.HeaderRev), coqKvo(o.Kv))
+		case "uncertain":
+			r = "(RErr true)"
+		default:
+			r = "(RErr false)"
+		}
+		d = lib.App("OResp", r, lib.Bool(o.Unk))
+	case "compact":
+		if o.Class == "ok" {
+			d = lib.App("OResp", lib.App("RCompacted", lib.N(o.HeaderRev)), "false")
+		} else {
+			d = lib.App("OResp", "(RErr false)", "false")
+		}
+	case "retry", "rget", "rfinish":
+		d = lib.App("ORetry", retryStates[o.Retry])
+	case "list":
+		xs := make([]string, len(o.List))
+		for i, kv := range o.List {
+			xs[i] = fmt.Sprintf("(%d, %s, %d)", kv.Key, lib.Bytes(kv.Val), kv.Rev)
+		}
+		d = lib.App("OListed", lib.N(o.HeaderRev), lib.List(xs))
+	}
+	return fmt.Sprintf("{| o_d := %s; o_committed := %d; o_queue := %d |}", d, o.Committed, o.Queue)
+}
+
+func coqEvent(e EvObs) string {
+	v := "VPut"
+	if e.Del {
+		v = "VDelete"
+	} else if e.Create {
+		v = "VCreate"
+	}
+	return fmt.Sprintf("(%s, %d, %s, %d, %d)", v, e.Key, lib.Bytes(e.Val), e.Rev, e.KvRev)
+}
+
+func coqCase(script []Step, res Result) string {
+	ss := make([]string, len(script))
+	for i, s := range script {
+		ss[i] = coqStep(s)
+	}
+	n := len(res.Obs)
+	os_ := make([]string, n)
+	for i := 0; i < n; i++ {
+		os_[i] = coqObs(script[i], res.Obs[i])
+	}
+	es := make([]string, len(res.Events))
+	for i, e := range res.Events {
+		es[i] = coqEvent(e)
+	}
+	return fmt.Sprintf("{| c_script := %s;\n    c_obs := %s;\n    c_events := %s |}", lib.List(ss), lib.List(os_), lib.List(es))
+}
+
+// ---------- child: runs its share of the plans ----------
+
+type childOut struct {
+	ID       int         `json:"id"`
+	Kind     string      `json:"kind"`
+	Coq      string      `json:"coq"`
+	JSON     interface{} `json:"json"`
+	Trivial  bool        `json:"trivial"`
+	Outcomes []string    `json:"outcomes"`
+	Failure  string      `json:"failure,omitempty"`
+	Retries  int         `json:"retries,omitempty"`
+	WallMs   int64       `json:"wall_ms"`
+}
+
+func sameResult(a, b Result) bool {
+	x, _ := json.Marshal(struct {
+		O []Obs
+		E []EvObs
+	}{a.Obs, a.Events})
+	y, _ := json.Marshal(struct {
+		O []Obs
+		E []EvObs
+	}{b.Obs, b.Events})
+	return string(x) == string(y)
+}
+
+func runPlan(p Plan, scratch string) childOut {
+	out := childOut{ID: p.ID, Kind: p.Kind}
+	var script []Step
+	var res Result
+	for attempt := 0; attempt < 4; attempt++ {
+		r, err := NewRunner(p.Engine, scratch)
+		if err != nil {
+			out.Failure = "cannot start backend: " + err.Error()
+			return out
+		}
+		if script == nil && p.Script == nil {
+			script, res = generate(lib.NewRand(p.Seed), r)
+		} else {
+			if script == nil {
+				script = p.Script
+			}
+			res = r.Run(script)
+		}
+		r.Close()
+		out.Retries = attempt
+		if !res.Tainted || res.Failure != "" {
+			break
+		}
+	}
+	out.WallMs = res.WallMs
+	if res.Failure != "" {
+		out.Failure = res.Failure
+	} else if res.Tainted {
+		out.Failure = "timing: a tick-free segment exceeded the limit in four attempts (machine overloaded?)"
+	}
+	out.Coq = coqCase(script, res)
+	out.JSON = map[string]interface{}{"engine": p.Engine, "script": script, "obs": res.Obs, "events": res.Events}
+	seen := map[string]bool{}
+	nontriv := false
+	for i, o := range res.Obs {
+		var oc string
+		switch {
+		case o.Retry != "":
+			oc = "retry-" + o.Retry
+			if o.Retry != "idle" {
+				nontriv = true
+			}
+		case o.Class != "" && i < len(script) && script[i].Kind != "list":
+			oc = script[i].Kind + "-" + o.Class
+			if o.Unk {
+				nontriv = true
+			}
+		}
+		if oc != "" && !seen[oc] {
+			seen[oc] = true
+			out.Outcomes = append(out.Outcomes, oc)
+		}
+	}
+	sort.Strings(out.Outcomes)
+	out.Trivial = !nontriv
+	return out
+}
+
+// ---------- classification table of tikv/batch.go against the mock ----------
+
+type tableRow struct {
+	Name      string `json:"name"`
+	Uncertain bool   `json:"classified_uncertain"`
+	Cas       bool   `json:"classified_cas"`
+	Want      bool   `json:"want_uncertain"`
+}
+
+func tikvTable(scratch string) ([]tableRow, []string) {
+	var rows []tableRow
+	var bad []string
+	// (a) the five origins wrapped as the adapter wraps them: uncertain, never a compare failure
+	for _, o := range []struct {
+		n string
+		e error
+	}{{"context.DeadlineExceeded", context.DeadlineExceeded}, {"context.Canceled", context.Canceled},
+		{"tikverr.ErrBodyMissing", tikverr.ErrBodyMissing}, {"tikverr.ErrTiKVServerTimeout", tikverr.ErrTiKVServerTimeout},
+		{"tikverr.ErrUnknown", tikverr.ErrUnknown}} {
+		w := storage.NewErrUncertainResult(o.e)
+		row := tableRow{Name: "wrap " + o.n, Uncertain: errors.Is(w, storage.ErrUncertainResult), Cas: errors.Is(w, storage.ErrCASFailed), Want: true}
+		rows = append(rows, row)
+		if !row.Uncertain || row.Cas || !errors.Is(w, o.e) {
+			bad = append(bad, row.Name)
+		}
+	}
+	// (b) the adapter itself on the mock: a commit under a cancelled / expired context is classified unknown-outcome
+	// or fails definitely before anything is sent; a compare failure is never classified unknown
+	kv, closer, err := lib.NewEngine(lib.EngTiKV, scratch)
+	if err != nil {
+		return rows, append(bad, "tikv mock: "+err.Error())
+	}
+	defer closer()
+	bg := context.Background()
+	b := kv.BeginBatchWrite()
+	b.PutIfNotExist([]byte("/t/a"), []byte("1"), 0)
+	if err := b.Commit(bg); err != nil {
+		bad = append(bad, "plain commit failed: "+err.Error())
+	}
+	b = kv.BeginBatchWrite()
+	b.PutIfNotExist([]byte("/t/a"), []byte("2"), 0)
+	err = b.Commit(bg)
+	row := tableRow{Name: "mock: put-if-absent on existing key", Uncertain: errors.Is(err, storage.ErrUncertainResult), Cas: errors.Is(err, storage.ErrCASFailed)}
+	rows = append(rows, row)
+	if row.Uncertain || !row.Cas {
+		bad = append(bad, row.Name)
+	}
+	b = kv.BeginBatchWrite()
+	b.CAS([]byte("/t/a"), []byte("3"), []byte("zz"), 0)
+	err = b.Commit(bg)
+	row = tableRow{Name: "mock: compare-and-swap mismatch", Uncertain: errors.Is(err, storage.ErrUncertainResult), Cas: errors.Is(err, storage.ErrCASFailed)}
+	rows = append(rows, row)
+	if row.Uncertain || !row.Cas {
+		bad = append(bad, row.Name)
+	}
+	cctx, cancel := context.WithCancel(bg)
+	cancel()
+	b = kv.BeginBatchWrite()
+	b.Put([]byte("/t/b"), []byte("1"), 0)
+	err = b.Commit(cctx)
+	row = tableRow{Name: "mock: commit under a cancelled context", Uncertain: errors.Is(err, storage.ErrUncertainResult), Cas: errors.Is(err, storage.ErrCASFailed), Want: true}
+	rows = append(rows, row)
+	if err != nil && (row.Cas || (errors.Is(err, context.Canceled) && !row.Uncertain)) {
+		bad = append(bad, row.Name)
+	}
+	dctx, cancel2 := context.WithDeadline(bg, time.Now().Add(-time.Second))
+	b = kv.BeginBatchWrite()
+	b.Put([]byte("/t/c"), []byte("1"), 0)
+	err = b.Commit(dctx)
+	cancel2()
+	row = tableRow{Name: "mock: commit past the deadline", Uncertain: errors.Is(err, storage.ErrUncertainResult), Cas: errors.Is(err, storage.ErrCASFailed), Want: true}
+	rows = append(rows, row)
+	if err != nil && (row.Cas || (errors.Is(err, context.DeadlineExceeded) && !row.Uncertain)) {
+		bad = append(bad, row.Name)
+	}
+	return rows, bad
+}
+
+// ---------- main ----------
+
+func plans(seed uint64, tier string) []Plan {
+	ps := corpus()
+	nMem, nBadger, nTikv := 60, 0, 0
+	switch tier {
+	case "thorough":
+		nMem, nBadger, nTikv = 700, 150, 150
+	case "search":
+		nMem, nBadger, nTikv = 400, 30, 30
+	}
+	if tier != "quick" {
+		// the corpus on the other engines as well
+		base := corpus()
+		for _, e := range []string{lib.EngBadger, lib.EngTiKV} {
+			for _, p := range base {
+				p.Engine = e
+				p.Kind = p.Kind + "@" + e
+				ps = append(ps, p)
+			}
+		}
+	}
+	add := func(n int, eng string) {
+		for i := 0; i < n; i++ {
+			ps = append(ps, Plan{Kind: "random@" + eng, Engine: eng})
+		}
+	}
+	add(nMem, lib.EngMem)
+	add(nBadger, lib.EngBadger)
+	add(nTikv, lib.EngTiKV)
+	for i := range ps {
+		ps[i].ID = i
+		ps[i].Seed = seed*1000003 + uint64(i)*7919 + 17
+	}
+	return ps
 }
 
 func main() {
+	child := flag.Int("child", -1, "internal: child index")
+	nchild := flag.Int("nchild", 1, "internal: number of children")
+	childOutFile := flag.String("childout", "", "internal: child output file")
+	args := lib.ParseArgs()
 	lib.QuietLogs()
-	backend.VerifSetIntervals(retryIntervalMs*time.Millisecond, checkIntervalMs*time.Millisecond)
-	installYieldHook()
-	unkA := Env{Kind: "unk", Applied: true}
-	unkN := Env{Kind: "unk", Applied: false}
-	_ = unkN
-	scripts := map[string][]Step{
-		"F1": {
-			{Kind: "create", Key: 0, Val: []byte("v1")},
-			{Kind: "list"},
-			u(0, "v2", 11, unkA),
-			{Kind: "retry"},
-			{Kind: "tick"},
-			{Kind: "retry", Envs: []Env{unkN}},
-			{Kind: "retry"},
-			{Kind: "tick"},
-			{Kind: "retry"},
-			{Kind: "retry"},
-			{Kind: "list"},
-		},
-		"F2-empty": {
-			{Kind: "create", Key: 0, Val: []byte("v1")},
-			{Kind: "list"},
-			u(0, "", 11, unkA),
-			{Kind: "tick"},
-			{Kind: "retry"},
-			{Kind: "retry"},
-			{Kind: "list"},
-		},
-		"ok-repair": {
-			{Kind: "create", Key: 0, Val: []byte("v1")},
-			{Kind: "list"},
-			u(0, "v2", 11, unkA),
-			{Kind: "compact"},
-			{Kind: "tick"},
-			{Kind: "retry"},
-			{Kind: "retry"},
-			{Kind: "list"},
-		},
-		"hold": {
-			{Kind: "create", Key: 0, Val: []byte("v1")},
-			{Kind: "update", Key: 0, Val: []byte("v2"), Rev: 11, Envs: []Env{unkA}, Hold: true},
-			{Kind: "compact"},
-			{Kind: "create", Key: 1, Val: []byte("w")},
-			{Kind: "release"},
-			{Kind: "compact"},
-			{Kind: "tick"},
-			{Kind: "rget"},
-			u(0, "v3", 12),
-			{Kind: "rfinish"},
-			{Kind: "retry"},
-			{Kind: "list"},
-		},
-	}
-	for _, name := range os.Args[1:] {
-		r, err := NewRunner(lib.EngMem, "/var/tmp")
+	ps := plans(args.Seed, args.Tier)
+
+	if *child >= 0 {
+		backend.VerifSetIntervals(retryIntervalMs*time.Millisecond, checkIntervalMs*time.Millisecond)
+		installYieldHook()
+		f, err := os.Create(*childOutFile)
 		if err != nil {
-			fmt.Println("ERR", err)
+			fmt.Fprintln(os.Stderr, err)
+			os.Exit(2)
+		}
+		w := bufio.NewWriter(f)
+		enc := json.NewEncoder(w)
+		for _, p := range ps {
+			if p.ID%*nchild != *child {
+				continue
+			}
+			if args.Only >= 0 && p.ID != args.Only {
+				continue
+			}
+			_ = enc.Encode(runPlan(p, args.Scratch))
+			w.Flush()
+		}
+		f.Close()
+		return
+	}
+
+	t0 := time.Now()
+	nc := 10
+	if len(ps) > 400 {
+		nc = 14
+	}
+	self, _ := os.Executable()
+	var wg sync.WaitGroup
+	files := make([]string, nc)
+	errs := make([]error, nc)
+	for i := 0; i < nc; i++ {
+		files[i] = filepath.Join(args.OutDir, fmt.Sprintf("child_%02d.jsonl", i))
+		wg.Add(1)
+		go func(i int) {
+			defer wg.Done()
+			cmd := exec.Command(self, "-child", fmt.Sprint(i), "-nchild", fmt.Sprint(nc), "-childout", files[i],
+				"-seed", fmt.Sprint(args.Seed), "-tier", args.Tier, "-outdir", args.OutDir, "-scratch", args.Scratch, "-only", fmt.Sprint(args.Only))
+			cmd.Stderr = os.Stderr
+			errs[i] = cmd.Run()
+		}(i)
+	}
+	wg.Wait()
+	outs := map[int]childOut{}
+	for i, fn := range files {
+		f, err := os.Open(fn)
+		if err != nil {
 			continue
 		}
-		res := r.Run(scripts[name])
-		r.Close()
-		b, _ := json.Marshal(res)
-		fmt.Println(name, string(b))
+		sc := bufio.NewScanner(f)
+		sc.Buffer(make([]byte, 1<<20), 1<<26)
+		for sc.Scan() {
+			var o childOut
+			if json.Unmarshal(sc.Bytes(), &o) == nil {
+				outs[o.ID] = o
+			}
+		}
+		f.Close()
+		_ = os.Remove(fn)
+		_ = i
+	}
+	w := lib.NewWriter(args, "C09", "c09", "From KB Require Import Model.C09Cases.", "c09_case", "c09_check", "c09_oracle", 120)
+	retries, maxWall := 0, int64(0)
+	for _, p := range ps {
+		o, ok := outs[p.ID]
+		if !ok {
+			if args.Only < 0 || args.Only == p.ID {
+				w.Add(lib.Case{Kind: p.Kind, Coq: "{| c_script := []; c_obs := []; c_events := [] |}", JSON: map[string]interface{}{"lost": true}, Trivial: true})
+				w.Fail(lib.ImplFailure{CaseID: p.ID, What: fmt.Sprintf("case %d (%s): the child process running it died (child errors: %v)", p.ID, p.Kind, errs[p.ID%nc])})
+			} else {
+				w.Add(lib.Case{Kind: p.Kind, Coq: "{| c_script := []; c_obs := []; c_events := [] |}", Trivial: true})
+			}
+			continue
+		}
+		w.Add(lib.Case{Kind: p.Kind, Coq: o.Coq, JSON: o.JSON, Trivial: o.Trivial, Outcomes: o.Outcomes})
+		if o.Failure != "" {
+			w.Fail(lib.ImplFailure{CaseID: p.ID, What: o.Failure, Case: o.JSON})
+		}
+		retries += o.Retries
+		if o.WallMs > maxWall {
+			maxWall = o.WallMs
+		}
+	}
+	// classification table (Go side)
+	rows, bad := tikvTable(args.Scratch)
+	w.Stats.Extra["tikv_classification_table"] = rows
+	for _, b := range bad {
+		w.Fail(lib.ImplFailure{CaseID: -1, What: "unknown-outcome classification table: " + b})
+	}
+	w.Stats.Extra["timing_reruns"] = retries
+	w.Stats.Extra["slowest_case_ms"] = maxWall
+	w.Stats.Extra["driver_wall_s"] = time.Since(t0).Seconds()
+	w.Stats.Extra["intervals_ms"] = map[string]int{"retry": retryIntervalMs, "check": checkIntervalMs, "tick": tickMs}
+	if err := w.Finish("corpus of fixed fault placements (both findings, every verb, create fallbacks, repair racing client writes, sequencer held between classification and Append) + random write histories over 4 keys with unknown-outcome / definite / abort faults on client commits and repair commits, expected revisions following the implementation's answers; distinct = SHA-256 of the Coq case; non-trivial = an unknown outcome was drawn by a client commit or a retry iteration went past the age test"); err != nil {
+		fmt.Fprintln(os.Stderr, err)
+		os.Exit(2)
 	}
 }
